@@ -257,4 +257,64 @@ def final (cfg : Cfg) : State → List Op → State
     | .error _ => s
     | .ok sr => final cfg sr.1 ops
 
+/-! ### life cycle of the limiters map: generations and maintenance (limiters_map.go)
+
+  `limitersMap.curGen` is the wall clock (µs) of the last maintenance iteration (of the map's creation
+  before the first one); `getOrAdd` stores it into the limiter's `gen` on every access and gives it to
+  a new limiter; one maintenance iteration sets `curGen = nowTs` and deletes every limiter with
+  `nowTs - gen >= limitersExp`. The deletions are `expire` ops of the model above. -/
+
+structure Gens where
+  cur : Int
+  stamps : List (Bytes × Int)
+deriving DecidableEq, Repr
+
+inductive MOp
+  | ev (e : Ev)
+  | tick (t : Int)
+deriving DecidableEq, Repr
+
+/-- limiter key `Plugin.isAllowed` hands to `getOrAdd` for an event (none: no rule matches) -/
+def evLimKey (cfg : Cfg) (e : Ev) : Option Bytes :=
+  match firstMatch cfg.rules 0 e with
+  | some ir => some (limKey ir.1 (throttleKey e))
+  | none => none
+
+def setStamp (k : Bytes) (g : Int) (l : List (Bytes × Int)) : List (Bytes × Int) :=
+  l.filter (fun kv => kv.1 != k) ++ [(k, g)]
+
+/-- what `getOrAdd` does to the generations: `lim.gen.Store(l.curGen)` for an existing limiter,
+    `newLimiterWithGen(newLim, l.curGen)` for a new one. `refresh = false` is the variant that does
+    not store the generation on access (used only for the counterexample of Props/C16) -/
+def touch (refresh : Bool) (g : Gens) (k : Bytes) : Gens :=
+  match g.stamps.lookup k with
+  | some _ => if refresh then { g with stamps := setStamp k g.cur g.stamps } else g
+  | none => { g with stamps := setStamp k g.cur g.stamps }
+
+/-- keys one maintenance iteration at `t` deletes: `nowTs - gen < limitersExp` is false -/
+def expiredKeys (exp : Int) (g : Gens) (t : Int) : List Bytes :=
+  (g.stamps.filter (fun kv => !decide (t - kv.2 < exp))).map (·.1)
+
+/-- generations after one maintenance iteration at `t` -/
+def tickGens (exp : Int) (g : Gens) (t : Int) : Gens :=
+  ⟨t, g.stamps.filter (fun kv => decide (t - kv.2 < exp))⟩
+
+/-- `limitersExp` as `Start` computes it: the configured expiration raised to
+    `bucket_interval * buckets_count` (ns), in µs (`Duration.Microseconds()`) -/
+def effExp (expNs interval : Int) (count : Nat) : Int :=
+  Int.tdiv (max expNs (interval * (count : Int))) 1000
+
+/-- one op of the map: the ops of the bucket model it amounts to, and the generations after it -/
+def expandStep (cfg : Cfg) (exp : Int) (refresh : Bool) (g : Gens) : MOp → List Op × Gens
+  | .ev e =>
+    ([Op.ev e], match evLimKey cfg e with
+      | some k => touch refresh g k
+      | none => g)
+  | .tick t => ((expiredKeys exp g t).map Op.expire, tickGens exp g t)
+
+/-- an op sequence of the map as ops of the bucket model -/
+def expand (cfg : Cfg) (exp : Int) (refresh : Bool) : Gens → List MOp → List Op
+  | _, [] => []
+  | g, op :: ops => (expandStep cfg exp refresh g op).1 ++ expand cfg exp refresh (expandStep cfg exp refresh g op).2 ops
+
 end FileD.Throttle
